@@ -818,6 +818,211 @@ example : (lvnLoop { lvs := [(2, .lit 0, .var 5)], body := [.s (.bin 3 .mul (.va
       .sif (.var 4) false [.bin 6 .mul (.var 2) (.var 2), .brk (.var 6)], .s (.bin 5 .add (.var 2) (.lit 1)), .s (.bin 7 .add (.var 2) (.lit 1))] }
     { ren := [], avail := [] }).lvs = [(2, .lit 0, .var 5)] := by decide
 
+/-! ### The use analysis that gates IV elimination (`stmt_uses_basic_induction_var`) -/
+
+def Agree (x : Nat) (ρ1 ρ2 : Nat → Int) : Prop := ∀ y, y ≠ x → ρ1 y = ρ2 y
+
+theorem eval_of_not_uses (x : Nat) (a : Operand) (ρ1 ρ2 : Nat → Int) (h : a.uses x = false) (hA : Agree x ρ1 ρ2) :
+    a.eval ρ1 = a.eval ρ2 := by
+  cases a with
+  | lit n => rfl
+  | var y =>
+    simp only [Operand.uses, beq_eq_false_iff_ne] at h
+    exact hA y h
+
+theorem agree_update (x : Nat) (ρ1 ρ2 : Nat → Int) (hA : Agree x ρ1 ρ2) (y : Nat) (v : Int) :
+    Agree x (update ρ1 y v) (update ρ2 y v) := by
+  intro z hz
+  simp only [update]
+  split
+  · rfl
+  · exact hA z hz
+
+theorem agree_assignAll (x : Nat) (l : List (Nat × Int)) (ρ1 ρ2 : Nat → Int) (hA : Agree x ρ1 ρ2) :
+    Agree x (assignAll ρ1 l) (assignAll ρ2 l) := by
+  induction l generalizing ρ1 ρ2 with
+  | nil => exact hA
+  | cons p r ih => obtain ⟨y, v⟩ := p; exact ih _ _ (agree_update x _ _ hA y v)
+
+def ResAgree (x : Nat) : Res → Res → Prop
+  | .trap, .trap => True
+  | .brk v, .brk w => v = w
+  | .next ρ1, .next ρ2 => Agree x ρ1 ρ2
+  | _, _ => False
+
+theorem execSimple_irrel (x : Nat) (p : List Simple) (ρ1 ρ2 : Nat → Int)
+    (h : p.any (usesSimple x) = false) (hA : Agree x ρ1 ρ2) :
+    (execSimple p ρ1).1 = (execSimple p ρ2).1 ∧ ResAgree x (execSimple p ρ1).2 (execSimple p ρ2).2 := by
+  induction p generalizing ρ1 ρ2 with
+  | nil => exact ⟨rfl, hA⟩
+  | cons st r ih =>
+    simp only [List.any_cons, Bool.or_eq_false_iff] at h
+    cases st with
+    | print a =>
+      simp only [usesSimple] at h
+      have := ih ρ1 ρ2 h.2 hA
+      simp only [execSimple, eval_of_not_uses x a ρ1 ρ2 h.1 hA]
+      exact ⟨by rw [this.1], this.2⟩
+    | brk a =>
+      simp only [usesSimple] at h
+      simp only [execSimple, eval_of_not_uses x a ρ1 ρ2 h.1 hA]
+      exact ⟨trivial, by simp [ResAgree]⟩
+    | bin y op a b =>
+      simp only [usesSimple, Bool.or_eq_false_iff] at h
+      simp only [execSimple, eval_of_not_uses x a ρ1 ρ2 h.1.1 hA, eval_of_not_uses x b ρ1 ρ2 h.1.2 hA]
+      cases evalTarget op (a.eval ρ2) (b.eval ρ2) with
+      | none => exact ⟨rfl, trivial⟩
+      | some v => exact ih _ _ h.2 (agree_update x _ _ hA y v)
+
+theorem fas_vals_agree (x : Nat) (fas : List (Nat × Operand × Operand)) (sel : Operand × Operand → Operand)
+    (ρ1 ρ2 : Nat → Int) (h : ∀ fa, fa ∈ fas → (sel fa.2).uses x = false) (hA : Agree x ρ1 ρ2) :
+    (fas.map fun fa => (fa.1, (sel fa.2).eval ρ1)) = (fas.map fun fa => (fa.1, (sel fa.2).eval ρ2)) := by
+  apply List.map_congr_left
+  intro fa hfa
+  rw [eval_of_not_uses x _ ρ1 ρ2 (h fa hfa) hA]
+
+theorem execL_irrel (x : Nat) (p : List LStmt) (ρ1 ρ2 : Nat → Int)
+    (h : p.any (usesL x) = false) (hA : Agree x ρ1 ρ2) :
+    (execL p ρ1).1 = (execL p ρ2).1 ∧ ResAgree x (execL p ρ1).2 (execL p ρ2).2 := by
+  induction p generalizing ρ1 ρ2 with
+  | nil => exact ⟨rfl, hA⟩
+  | cons st r ih =>
+    simp only [List.any_cons, Bool.or_eq_false_iff] at h
+    obtain ⟨hst, hr⟩ := h
+    cases st with
+    | s st =>
+      simp only [usesL] at hst
+      have hs := execSimple_irrel x [st] ρ1 ρ2 (by simp [hst]) hA
+      simp only [execL]
+      cases h1 : execSimple [st] ρ1 with
+      | mk t1 r1 =>
+        cases h2 : execSimple [st] ρ2 with
+        | mk t2 r2 =>
+          rw [h1, h2] at hs
+          simp only at hs
+          cases r1 <;> cases r2 <;> simp only [ResAgree] at hs ⊢
+          all_goals first | exact ⟨hs.1, trivial⟩ | exact hs.2.elim | exact ⟨hs.1, hs.2⟩ | skip
+          have := ih _ _ hr hs.2
+          exact ⟨by rw [hs.1, this.1], this.2⟩
+    | sif c inv body =>
+      simp only [usesL, Bool.or_eq_false_iff] at hst
+      simp only [execL, eval_of_not_uses x c ρ1 ρ2 hst.1 hA]
+      split
+      · have hs := execSimple_irrel x body ρ1 ρ2 hst.2 hA
+        cases h1 : execSimple body ρ1 with
+        | mk t1 r1 =>
+          cases h2 : execSimple body ρ2 with
+          | mk t2 r2 =>
+            rw [h1, h2] at hs
+            simp only at hs
+            cases r1 <;> cases r2 <;> simp only [ResAgree] at hs ⊢
+            all_goals first | exact ⟨hs.1, trivial⟩ | exact hs.2.elim | exact ⟨hs.1, hs.2⟩ | skip
+            have := ih _ _ hr hs.2
+            exact ⟨by rw [hs.1, this.1], this.2⟩
+      · exact ih _ _ hr hA
+    | ife c s1 s2 fas =>
+      simp only [usesL, Bool.or_eq_false_iff] at hst
+      obtain ⟨⟨⟨hc, h1'⟩, h2'⟩, hf⟩ := hst
+      have hf' : ∀ fa, fa ∈ fas → fa.2.1.uses x = false ∧ fa.2.2.uses x = false := by
+        intro fa hfa
+        have := List.any_eq_false.mp hf fa hfa
+        simpa [Bool.or_eq_false_iff] using this
+      simp only [execL, eval_of_not_uses x c ρ1 ρ2 hc hA]
+      split
+      · have hs := execSimple_irrel x s1 ρ1 ρ2 h1' hA
+        cases e1 : execSimple s1 ρ1 with
+        | mk t1 r1 =>
+          cases e2 : execSimple s1 ρ2 with
+          | mk t2 r2 =>
+            rw [e1, e2] at hs
+            simp only at hs
+            cases r1 <;> cases r2 <;> simp only [ResAgree] at hs ⊢
+            all_goals first | exact ⟨hs.1, trivial⟩ | exact hs.2.elim | exact ⟨hs.1, hs.2⟩ | skip
+            rename_i σ1 σ2
+            rw [fas_vals_agree x fas (fun q => q.1) σ1 σ2 (fun fa hfa => (hf' fa hfa).1) hs.2]
+            have := ih _ _ hr (agree_assignAll x (fas.map fun fa => (fa.1, fa.2.1.eval σ2)) σ1 σ2 hs.2)
+            exact ⟨by rw [hs.1, this.1], this.2⟩
+      · have hs := execSimple_irrel x s2 ρ1 ρ2 h2' hA
+        cases e1 : execSimple s2 ρ1 with
+        | mk t1 r1 =>
+          cases e2 : execSimple s2 ρ2 with
+          | mk t2 r2 =>
+            rw [e1, e2] at hs
+            simp only at hs
+            cases r1 <;> cases r2 <;> simp only [ResAgree] at hs ⊢
+            all_goals first | exact ⟨hs.1, trivial⟩ | exact hs.2.elim | exact ⟨hs.1, hs.2⟩ | skip
+            rename_i σ1 σ2
+            rw [fas_vals_agree x fas (fun q => q.2) σ1 σ2 (fun fa hfa => (hf' fa hfa).2) hs.2]
+            have := ih _ _ hr (agree_assignAll x (fas.map fun fa => (fa.1, fa.2.2.eval σ2)) σ1 σ2 hs.2)
+            exact ⟨by rw [hs.1, this.1], this.2⟩
+
+theorem iterLoop_irrel (x : Nat) (W : Loop) (h : usesLoop x W = false) (fuel : Nat) (ρ1 ρ2 : Nat → Int)
+    (hA : Agree x ρ1 ρ2) : LoopRel (iterLoop W.lvs W.body fuel ρ1) (iterLoop W.lvs W.body fuel ρ2) := by
+  simp only [usesLoop, Bool.or_eq_false_iff] at h
+  obtain ⟨hl, hb⟩ := h
+  have hl' : ∀ lv, lv ∈ W.lvs → lv.2.1.uses x = false ∧ lv.2.2.uses x = false := by
+    intro lv hlv
+    have := List.any_eq_false.mp hl lv hlv
+    simpa [Bool.or_eq_false_iff] using this
+  induction fuel generalizing ρ1 ρ2 with
+  | zero => simp [iterLoop, LoopRel]
+  | succ fuel ih =>
+    have hs := execL_irrel x W.body ρ1 ρ2 hb hA
+    simp only [iterLoop]
+    cases e1 : execL W.body ρ1 with
+    | mk t1 r1 =>
+      cases e2 : execL W.body ρ2 with
+      | mk t2 r2 =>
+        rw [e1, e2] at hs
+        simp only at hs
+        cases r1 <;> cases r2 <;> simp only [ResAgree] at hs ⊢
+        all_goals first | exact hs.1 | exact hs.2.elim | exact ⟨hs.1, hs.2⟩ | skip
+        rename_i σ1 σ2
+        rw [fas_vals_agree x W.lvs (fun q => q.2) σ1 σ2 (fun lv hlv => (hl' lv hlv).2) hs.2]
+        have := ih _ _ (agree_assignAll x (W.lvs.map fun lv => (lv.1, lv.2.2.eval σ2)) σ1 σ2 hs.2)
+        revert this
+        cases iterLoop W.lvs W.body fuel (assignAll σ1 (W.lvs.map fun lv => (lv.1, lv.2.2.eval σ2))) with
+        | none =>
+          cases iterLoop W.lvs W.body fuel (assignAll σ2 (W.lvs.map fun lv => (lv.1, lv.2.2.eval σ2))) with
+          | none => simp [LoopRel]
+          | some r2 => simp [LoopRel]
+        | some r1 =>
+          cases iterLoop W.lvs W.body fuel (assignAll σ2 (W.lvs.map fun lv => (lv.1, lv.2.2.eval σ2))) with
+          | none => obtain ⟨a, b⟩ := r1; cases b <;> simp [LoopRel]
+          | some r2 =>
+            obtain ⟨a1, b1⟩ := r1; obtain ⟨a2, b2⟩ := r2
+            cases b1 <;> cases b2 <;> simp only [LoopRel, Option.map] <;> intro this
+            all_goals first | exact this.elim | (rw [hs.1, this]) | exact ⟨by rw [hs.1, this.1], this.2⟩
+
+/-- FULL STRENGTH (`unused_counter_irrelevant`): if the use analysis says that a nested `While` does
+not read `x` — its loop variables' INITIAL values, loop values and body included — then the loop
+prints and ends the same whatever `x` holds (in particular when `x` is no longer assigned because
+induction-variable elimination dropped it), for every loop, every fuel, every environment. -/
+theorem unused_counter_irrelevant (x : Nat) (W : Loop) (h : usesLoop x W = false) (fuel : Nat)
+    (ρ : Nat → Int) (v : Int) : LoopRel (execLoop W fuel ρ) (execLoop W fuel (update ρ x v)) := by
+  have hA : Agree x ρ (update ρ x v) := by
+    intro y hy; simp [update, hy]
+  have hl := h
+  simp only [usesLoop, Bool.or_eq_false_iff] at hl
+  have hl' : ∀ lv, lv ∈ W.lvs → lv.2.1.uses x = false := by
+    intro lv hlv
+    have := List.any_eq_false.mp hl.1 lv hlv
+    have h2 : (lv.2.1.uses x || lv.2.2.uses x) = false := by simpa using this
+    exact (Bool.or_eq_false_iff.mp h2).1
+  unfold execLoop
+  rw [fas_vals_agree x W.lvs (fun q => q.1) ρ (update ρ x v) hl' hA]
+  exact iterLoop_irrel x W h fuel _ _ (agree_assignAll x _ _ _ hA)
+
+/-- The clause is necessary (seeded-fault class C02d): a use analysis that ignores the initial values
+of the nested loop's variables calls `x` unused although the loop's result depends on it. -/
+theorem uses_must_count_initial_values :
+    let W : Loop := { lvs := [(1, .var 0, .var 3)],
+                      body := [.s (.bin 2 .ge (.var 1) (.lit 3)), .sif (.var 2) false [.brk (.var 1)],
+                               .s (.bin 3 .add (.var 1) (.lit 1))] }
+    usesLoopNoInit 0 W = false ∧ usesLoop 0 W = true ∧
+    execLoop W 9 (fun _ => 0) = some ([], .brk 3) ∧ execLoop W 9 (update (fun _ => 0) 0 7) = some ([], .brk 7) := by
+  refine ⟨by decide, by decide, ?_, ?_⟩ <;> rfl
+
 /-! ## 10. Common-subexpression elimination never hoists a trap above an effect -/
 
 /-- FULL STRENGTH (`cse_hoist_order`): for all branches and environments, the statements CSE places
